@@ -240,6 +240,18 @@ impl ActiveQuery {
         let accumulated_inputs = AtomicInputAccumulatedValues::new(accumulated_inputs);
         let verified_final = cycle_heads.is_empty();
         let (active_tracked_structs, stale_tracked_structs) = tracked_struct_ids.drain();
+        #[cfg(salsa_verif)]
+        if crate::verif_trace::structs_enabled() {
+            crate::verif_trace::ts(
+                "pop",
+                format_args!(
+                    "{} done A{} S{}",
+                    crate::verif_trace::K(self.database_key_index),
+                    crate::tracked_struct::verif::pairs(&active_tracked_structs),
+                    crate::tracked_struct::verif::pairs(&stale_tracked_structs)
+                ),
+            );
+        }
 
         let extra = QueryRevisionsExtra::new(
             #[cfg(feature = "accumulator")]
@@ -426,6 +438,11 @@ impl QueryStack {
     }
 
     pub(crate) fn pop(&mut self, key: DatabaseKeyIndex, #[cfg(debug_assertions)] push_len: usize) {
+        #[cfg(salsa_verif)]
+        crate::verif_trace::ts(
+            "pop",
+            format_args!("{} aborted", crate::verif_trace::K(key)),
+        );
         self.pop_active_query(
             key,
             #[cfg(debug_assertions)]
